@@ -113,10 +113,13 @@ class Ctx:
         self.r["obligations"] += 1
         s = self._solver()
         s.add(*negated)
-        if len(self.r["queries"]) < 2:
+        if self.r["obligations"] <= 40:
+            # keep one representative query (the largest of the first 40 that fits) for the evidence
             try:
                 txt = s.to_smt2()
-                self.r["queries"].append({"tag": tag, "case": self.case_id, "smt2": txt[:4000]})
+                best = self.r["queries"][0]["smt2"] if self.r["queries"] else ""
+                if len(best) < len(txt) <= 3500:
+                    self.r["queries"] = [{"tag": tag, "case": self.case_id, "smt2": txt}]
             except Exception:
                 pass
         t0 = time.time()
